@@ -31,7 +31,8 @@ def cases(tier, seed):
             yield "zm.multiplier", {"resolutions": S, "bases": bases}
     # (2) real multires files
     setups = [(gen.binnify([10, 7], 1), 1), (gen.binnify([16, 6], 2), 2), (gen.binnify([12], 1), 1), (gen.binnify([9, 9, 3], 3), 3)]
-    ladders = [[2, 4, 8], [8, 4, 2], [4, 2], [2, 3, 6, 12], [12, 6, 3, 2], [6], [2, 6, 4], [3, 9], [2, 5], [4, 6], [1, 2, 4], [10, 2]]
+    ladders = [[2, 4, 8], [8, 4, 2], [4, 2], [2, 3, 6, 12], [12, 6, 3, 2], [6], [2, 6, 4], [3, 9], [2, 5], [4, 6], [1, 2, 4], [10, 2],
+               [1]]                                           # [1]: the base alone - a multires file with a single level
     nz = 70 if tier == "quick" else 900
     for h in range(nz):
         table, b0 = setups[h % len(setups)]
